@@ -51,6 +51,81 @@ var TypeNames = []string{"Any", "Array", "Binary", "Boolean", "Callable", "Colle
 var ArgReps = []string{"1", "-1", "0", "'ab'", "''", "'x'", "default", "undef", "true", "1.5", "/x/", "[]", "[1]", "[String]", "[String, 1]", "{}", "{a => 1}",
 	"{a => String}", "String", "Integer[1, 2]", "Foo", "Callable", "Optional[Callable]", "Deferred(x)", "Deferred('')", "Foo(1)", "Type[Integer]", "Tuple[String]", "9223372036854775807"}
 
+// ParamTypeNames: the parameterized core types, each with the argument leaves that matter to its creator in addition to the
+// common ones (ShapeLeaves)
+var ParamTypeNames = []struct {
+	Name  string
+	Extra []string
+}{
+	{"Enum", []string{"false", "'B'"}}, {"Pattern", []string{"/x/", "Regexp[/x/]"}}, {"Regexp", []string{"/x/"}}, {"Variant", []string{"Integer[1, 2]"}},
+	{"Tuple", []string{"Integer[1, 2]", "-1"}}, {"Array", []string{"Integer[1, 2]", "-1"}}, {"Hash", []string{"Integer[1, 2]", "-1"}}, {"Collection", []string{"Integer[1, 2]", "-1"}},
+	{"Struct", []string{"{a => String}", "{Optional[a] => 1}"}}, {"Callable", []string{"Callable", "Optional[Callable]", "Tuple[String]"}}, {"Integer", []string{"-1"}}, {"Float", []string{"1.5"}},
+	{"String", []string{"Integer[1, 2]"}}, {"Boolean", []string{"false"}}, {"Optional", nil}, {"NotUndef", nil}, {"Type", nil}, {"Sensitive", nil}, {"Iterable", nil}, {"Iterator", nil},
+	{"Init", []string{"{a => 1}"}}, {"Runtime", []string{"/x/"}}, {"Like", nil}, {"TypeReference", nil}, {"Timestamp", []string{"'2000-01-01'"}}, {"Timespan", []string{"{hours => 1}"}},
+	{"SemVer", []string{"'1.x'"}}, {"SemVerRange", nil}, {"URI", []string{"{scheme => 'http'}"}}, {"Object", []string{"{}"}}, {"TypeSet", []string{"{}"}}, {"Binary", nil}, {"Any", nil},
+}
+
+// ShapeLeaves: one leaf per kind of argument the creators distinguish (string, Boolean, Integer, type, default)
+var ShapeLeaves = []string{"'a'", "true", "1", "String", "default"}
+
+// ArgShapes enumerates the odd SHAPES of an argument list over the given leaves: the array form, the array form followed by
+// further arguments, a nested array, an array in second position, two arrays — every leaf at every position (so that a
+// flag / size / non-string shows up at each index of the flattened and of the un-flattened list).  deep adds the
+// five-leaf shape `[x, y, z], w, v`.
+func ArgShapes(leaves []string, deep bool) []string {
+	var out []string
+	var rec func(n int, cur []string, f func(xs []string))
+	rec = func(n int, cur []string, f func(xs []string)) {
+		if n == 0 {
+			f(cur)
+			return
+		}
+		for _, l := range leaves {
+			rec(n-1, append(cur, l), f)
+		}
+	}
+	add := func(n int, format func(xs []string) string) {
+		rec(n, nil, func(xs []string) { out = append(out, format(xs)) })
+	}
+	add(1, func(x []string) string { return "[" + x[0] + "]" })
+	add(1, func(x []string) string { return "[[" + x[0] + "]]" })
+	add(2, func(x []string) string { return "[" + x[0] + ", " + x[1] + "]" })
+	add(2, func(x []string) string { return "[" + x[0] + "], " + x[1] })
+	add(2, func(x []string) string { return "[" + x[0] + "], [" + x[1] + "]" })
+	add(2, func(x []string) string { return "[], " + x[0] + ", " + x[1] })
+	add(3, func(x []string) string { return "[" + x[0] + ", " + x[1] + "], " + x[2] })
+	add(3, func(x []string) string { return "[[" + x[0] + ", " + x[1] + "]], " + x[2] })
+	add(3, func(x []string) string { return x[0] + ", [" + x[1] + ", " + x[2] + "]" })
+	add(3, func(x []string) string { return "[" + x[0] + ", " + x[1] + ", " + x[2] + "]" })
+	add(3, func(x []string) string { return "[" + x[0] + "], " + x[1] + ", " + x[2] })
+	add(3, func(x []string) string { return x[0] + ", " + x[1] + ", " + x[2] })
+	return out
+}
+
+// ArgShapes4 enumerates the four- and five-leaf shapes (used over the common leaves only)
+func ArgShapes4(leaves []string, deep bool) []string {
+	var out []string
+	var rec func(n int, cur []string, f func(xs []string))
+	rec = func(n int, cur []string, f func(xs []string)) {
+		if n == 0 {
+			f(cur)
+			return
+		}
+		for _, l := range leaves {
+			rec(n-1, append(cur, l), f)
+		}
+	}
+	rec(4, nil, func(x []string) {
+		out = append(out, "["+x[0]+", "+x[1]+"], "+x[2]+", "+x[3], "["+x[0]+", "+x[1]+", "+x[2]+"], "+x[3], x[0]+", "+x[1]+", "+x[2]+", "+x[3])
+	})
+	if deep {
+		rec(5, nil, func(x []string) {
+			out = append(out, "["+x[0]+", "+x[1]+", "+x[2]+"], "+x[3]+", "+x[4], "["+x[0]+", "+x[1]+"], "+x[2]+", "+x[3]+", "+x[4])
+		})
+	}
+	return out
+}
+
 var scalarTypes = []string{"Any", "Undef", "Default", "Scalar", "ScalarData", "Numeric", "Data", "RichData", "Integer", "Float", "Boolean", "String",
 	"Binary", "Regexp", "Pattern", "Enum", "Timespan", "Timestamp", "SemVer", "SemVerRange", "URI", "Collection", "Array", "Hash", "Tuple", "Struct",
 	"Variant", "Optional", "NotUndef", "Type", "Sensitive", "Iterable", "Iterator", "Callable", "Runtime", "Object", "Unit", "Init", "My::Thing", "Catalogentry"}
